@@ -25,6 +25,7 @@ class Observer(object):
         self.idx = elem_index(col)
         self.c = collada
         self.bindings = []          # (owner description, literal reference, target object, target library attr)
+        self.structure = []         # structural problems of loaded nodes
 
     def uid(self, o):
         return self.idx.get(id(getattr(o, 'xmlnode', None)), 10 ** 6)
@@ -37,6 +38,18 @@ class Observer(object):
         out = []
 
         def walk(node):
+            kids = [id(e) for e in node.xmlnode]
+            seen_kids = set()
+            for c in list(node.children) + list(getattr(node, 'transforms', [])):
+                k = id(getattr(c, 'xmlnode', None))
+                if k in seen_kids:
+                    self.structure.append(('duplicate-child', 'node %r holds the same %s object (element <%s url=%r>) twice: an '
+                                           'instance that failed to load was replaced by its sibling'
+                                           % (node.id, type(c).__name__, bare(c.xmlnode.tag), c.xmlnode.get('url'))))
+                elif k not in kids:
+                    self.structure.append(('foreign-child', 'node %r holds a %s whose element is not a child of the node\'s element'
+                                           % (node.id, type(c).__name__)))
+                seen_kids.add(k)
             for c in node.children:
                 if isinstance(c, sc.NodeNode):
                     out.append(['n', self.uid(c.node)])
@@ -152,11 +165,95 @@ def load(data, ignore):
     return (held[0] if held else None), esc
 
 
+def effect_links(col):
+    """structural resolution of the effect-internal links in the (written) tree: every <texture texture=X>
+    names a sampler2D newparam of its effect, every sampler2D/source a surface newparam of its effect,
+    every surface/init_from an <image> of the document"""
+    root = col.xmlnode.getroot()
+    t = col.tag
+    out = []
+    image_ids = {e.get('id') for e in root.iter(t('image'))}
+    for fx in root.iter(t('effect')):
+        samplers, surfaces = set(), set()
+        for np_ in fx.iter(t('newparam')):
+            if np_.find(t('sampler2D')) is not None:
+                samplers.add(np_.get('sid'))
+            if np_.find(t('surface')) is not None:
+                surfaces.add(np_.get('sid'))
+        for tx in fx.iter(t('texture')):
+            if tx.get('texture') not in samplers:
+                out.append(('texture-sampler', 'effect %r: <texture texture=%r> names no sampler2D newparam of the written effect (%s)'
+                            % (fx.get('id'), tx.get('texture'), sorted(samplers))))
+        for np_ in fx.iter(t('newparam')):
+            sm = np_.find(t('sampler2D'))
+            if sm is not None:
+                src = sm.find(t('source'))
+                if src is None or src.text not in surfaces:
+                    out.append(('sampler-surface', 'effect %r: sampler2D %r has source %r, no surface newparam of the written effect (%s)'
+                                % (fx.get('id'), np_.get('sid'), None if src is None else src.text, sorted(surfaces))))
+            sf = np_.find(t('surface'))
+            if sf is not None:
+                ini = sf.find(t('init_from'))
+                if ini is None or ini.text not in image_ids:
+                    out.append(('surface-image', 'effect %r: surface %r is initialised from %r, no <image> of the written document'
+                                % (fx.get('id'), np_.get('sid'), None if ini is None else ini.text)))
+    return out
+
+
+def effect_kinds(col):
+    """per effect: what kind of value every shading property holds (a texture must stay a texture)"""
+    M = __import__('collada').material
+    out = {}
+    for fx in col.effects:
+        d = {}
+        for prop in list(fx.supported) + ['bumpmap']:
+            v = getattr(fx, prop, None)
+            d[prop] = 'map:%s/%s/%s' % (v.sampler.id, v.sampler.surface.id, v.sampler.surface.image.id) if isinstance(v, M.Map) \
+                else type(v).__name__
+        out[fx.id] = d
+    return out
+
+
+def construct_textured(col, k):
+    """a textured effect and its material made through the API"""
+    M = __import__('collada').material
+    img = M.CImage('cimg%d' % k, 'c%d.png' % k, col)
+    col.images.append(img)
+    sf = M.Surface('csurf%d' % k, img, 'A8R8G8B8')
+    sp = M.Sampler2D('csamp%d' % k, sf, None, None)
+    fx = M.Effect('cfx%d' % k, [sf, sp], 'lambert', diffuse=M.Map(sp, 'UV0'), ambient=(0.5, 0.5, 0.5, 1.0))
+    col.effects.append(fx)
+    col.materials.append(M.Material('cmat%d' % k, 'cmat%d' % k, fx))
+
+
 def save_clause(col, ob, renames):
     """rename objects, save, and check every reference is '#'+current id of its target and that
     this id names exactly that target's element in the right library of the written tree"""
     fails = []
-    for lib, i, new in renames:
+    M = __import__('collada').material
+    presave = 0
+    for r in renames:
+        if r[0] == 'construct':
+            construct_textured(col, r[1])
+        elif r[0] == 'save-first':
+            presave += 1
+    for _ in range(presave):
+        # a first save without renames: the links must survive later renames too
+        try:
+            col.save()
+        except Exception as e:  # noqa
+            return [('save-raises:' + type(e).__name__, 'save() raised %r' % (e,))], None
+    for r in renames:
+        if r[0] in ('construct', 'save-first'):
+            continue
+        lib, i, new = r
+        if lib == 'fxparams':
+            if i < len(col.effects):
+                for p in col.effects[i].params:
+                    if isinstance(p, (M.Surface, M.Sampler2D)) and (new[0] == 'both' or
+                                                                    (new[0] == 'sampler') == isinstance(p, M.Sampler2D)):
+                        p.id = p.id + new[1]
+            continue
         L = getattr(col, lib)
         if i < len(L):
             L[i].id = new
@@ -164,6 +261,8 @@ def save_clause(col, ob, renames):
         col.save()
     except Exception as e:  # noqa
         return [('save-raises:' + type(e).__name__, 'save() after renaming raised %r' % (e,))], None
+    for kind, what in effect_links(col):
+        fails.append(('saved-ref-unresolved:' + kind, 'after renames and save: ' + what))
     root = col.xmlnode.getroot()
     for owner, literal0, target, lib in ob.bindings:
         if isinstance(lib, tuple):
@@ -239,6 +338,8 @@ def run_case(case):
                 fail('observe:' + type(e).__name__, 'walking the loaded model raised %r' % (e,))
             for kind, what in ob.identity_failures():
                 fail('identity:' + kind, what + ' (ignore=%s)' % (names,))
+            for kind, what in ob.structure:
+                fail('identity:' + kind, what + ' (ignore=%s)' % (names,))
             if esc is None and keep is None:
                 keep = (col, ob, names)
         if esc is not None and exc_code(esc) > 6:
@@ -265,8 +366,17 @@ def run_case(case):
                 def shape(o):
                     return [len(o['items']), [[len(n[2])] for n in o['nodes']], [[len(n[2]) for n in s[2]] for s in o['scenes']],
                             o['default'] is None]
+                k1, k2 = effect_kinds(col), effect_kinds(col2)
+                bad = [(e, p, k1[e][p], k2.get(e, {}).get(p)) for e in k1 for p in k1[e]
+                       if k1[e][p].startswith('map:') and k2.get(e, {}).get(p) != k1[e][p]]
+                if bad:
+                    fail('saved-reload-effect', 'after save and reload a shading property is no longer what it was '
+                                                '(effect, property, saved, reloaded): %s' % (bad[:3],))
                 o1 = {k: obs[[x['mask'] for x in obs].index(names or [])][k] for k in ('items', 'nodes', 'scenes', 'default')}
-                if shape(o1) != shape(o2) or len(col2.errors) != len(col.errors):
+                nconstructed = 3 * sum(1 for r in case['renames'] if r[0] == 'construct')
+                s1 = shape(o1)
+                s1[0] += nconstructed
+                if s1 != shape(o2) or len(col2.errors) != len(col.errors):
                     fail('saved-reload-differs', 'the written document reloads with different bindings: %s vs %s, errors %s'
                          % (shape(o1), shape(o2), [type(e).__name__ for e in col2.errors]))
     out['fails'] = fails
